@@ -388,3 +388,39 @@ Proof.
   - left. injection H as <- <- <-. cbn [fst snd]. done.
   - right. injection H as <- <- <-. done.
 Qed.
+
+(* ---- the hypotheses of the end-to-end theorems are satisfiable (non-vacuity): a concrete 98-byte BEP 15
+   announce from 10.0.0.9, carrying the connection ID this tracker issues for that address (the MAC oracle
+   is the constant function here), accepted in the state reached by one earlier seeder announce; the response
+   decodes to the request's transaction id, action 1, the configured interval, 0 leechers, 1 seeder and the
+   one seeder's endpoint; afterwards the announcer is listed as a leecher *)
+Definition ex_mac (_ _ : list Z) : list Z := [1; 2; 3; 4; 5; 6; 7; 8].
+Definition ex_t : tcfg := {| t_interval := 1800 * 10 ^ 9; t_min_interval := 900 * 10 ^ 9 |}.
+Definition ex_u : ucfg := {| uc_key := [107]; uc_skew := 0;
+                             uc_opts := {| UdpParse.o_spoof := false; UdpParse.o_max_nw := 100; UdpParse.o_def_nw := 50; UdpParse.o_max_scrape := 50 |} |}.
+Definition ex_clock : Z := 1700000000 * 10 ^ 9.
+Definition ex_ip : list Z := [10; 0; 0; 9].
+Definition ex_ih : list Z := repeat 171 20.
+Definition ex_seeder : ann := {| a_ih := ex_ih; a_v6 := false;
+  a_peer := {| p_id := repeat 83 20; p_ip := [10; 0; 0; 1]; p_port := 6881 |}; a_left := 0; a_event := EvNone; a_numwant := 50 |}.
+Definition ex_packet : list Z :=
+  ConnID.generate ex_mac [107] ex_ip ex_clock ++ UdpWrite.be32 1 ++ [222; 173; 190; 239] ++ ex_ih ++ repeat 76 20 ++
+  be_enc 8 0 ++ be_enc 8 1000 ++ be_enc 8 0 ++ UdpWrite.be32 2 ++ [0; 0; 0; 0] ++ UdpWrite.be32 7 ++ UdpWrite.be32 10 ++ UdpWrite.be16 51413.
+
+Example udp_end_to_end_example :
+  let ops := [SClock (ex_clock - 10 ^ 9); SAnnounce ex_seeder] in
+  Forall sop_sane ops ∧ wf_bytes ex_packet = true ∧ length ex_packet = 98%nat ∧
+  (∃ txid r q, UdpParse.handle_udp ex_mac (uc_key ex_u) (uc_skew ex_u) ex_clock (uc_opts ex_u) ex_ip ex_packet =
+               UdpParse.UAnnounce txid false r q ∧ r_left r = 1000 ∧ r_event r = EvStarted ∧ r_numwant r = 10) ∧
+  ∃ sp' d, udp_step spec_if ex_mac ex_t ex_u (run_spec ops) ex_clock ex_ip ex_packet = Some (sp', [d]) ∧
+    UdpWrite.bep15_decode_announce false d =
+      Some {| UdpWrite.da_action := 1; UdpWrite.da_txid := [222; 173; 190; 239]; UdpWrite.da_interval := 1800;
+              UdpWrite.da_leechers := 0; UdpWrite.da_seeders := 1; UdpWrite.da_peers := [([10; 0; 0; 1], 6881)] |} ∧
+    map fst (map_to_list (leechers (swarm_of sp' ex_ih false))) = [repeat 76 20 ++ UdpWrite.be16 51413 ++ ex_ip].
+Proof.
+  cbn zeta. split.
+  { repeat constructor; cbn; try lia; done. }
+  split; [by vm_compute|]. split; [by vm_compute|]. split.
+  - eexists _, _, _. split; [by vm_compute|]. by vm_compute.
+  - eexists _, _. split; [by vm_compute|]. split; by vm_compute.
+Qed.
